@@ -1,7 +1,6 @@
 package c09
 
 import (
-	"bufio"
 	"bytes"
 	"context"
 	"encoding/json"
@@ -9,11 +8,8 @@ import (
 	"io"
 	"net/http"
 	"net/url"
-	"os"
-	"os/exec"
 	"reflect"
 	"strings"
-	"sync"
 	"testing"
 	"time"
 
@@ -460,255 +456,100 @@ func buildHostile(t *testing.T, pt passT) (engine.E1, []string) {
 				}
 				return false
 			},
-			NewWorker: func(int) func(engine.Vec) engine.Result {
-				h := newHostPrep(t)
-				wdocs := map[string]docType{}
-				for i := range helpers {
-					wdocs[helpers[i].name] = docOf(h, &helpers[i])
-				}
-				inproc := func(v engine.Vec) engine.Result {
-					hp := byName[sp.Get(v, "helper")]
-					d := wdocs[hp.name]
-					if len(d.members) != len(refDocs[hp.name].members) {
-						return engine.Bad("harness", "panic", "C09/harness-panic/hostile", "member lists differ between preparations")
+			NewWorker: func(w int) func(engine.Vec) engine.Result {
+				mk := func() func(engine.Vec) engine.Result {
+					h := newHostPrep(t)
+					wdocs := map[string]docType{}
+					for i := range helpers {
+						wdocs[helpers[i].name] = docOf(h, &helpers[i])
 					}
-					status, bodyKind := sp.Get(v, "status"), sp.Get(v, "body")
-					_, dev := slotSkip(sp, v, first, d)
-					valid := h.honest[hp.target].body
-					if dev > 0 || (hp.wrap != nil && bodyKind == "valid") {
-						valid = renderDoc(sp, v, first, d, "object")
-						if hp.wrap != nil {
-							valid = hp.wrap(valid)
+					inproc := func(v engine.Vec) engine.Result {
+						hp := byName[sp.Get(v, "helper")]
+						d := wdocs[hp.name]
+						if len(d.members) != len(refDocs[hp.name].members) {
+							return engine.Bad("harness", "panic", "C09/harness-panic/hostile", "member lists differ between preparations")
 						}
-					}
-					rt := &hostileRT{prep: h, target: hp.target, body: hostileBody(bodyKind, valid)}
-					fmt.Sscanf(status, "%d", &rt.status)
-					rt.loop = status == "302-loop"
-					baseline := status == "200" && bodyKind == "valid" && dev == 0
-					rule := "dev/" + hp.name
-					if baseline {
-						rule = "baseline-must-succeed/" + hp.name
-					}
-					var (
-						val        any
-						err        error
-						msg, stack string
-						elapsed    time.Duration
-					)
-					pan := engine.Bubble(t, 0, func() {
-						e := &henv{prep: h, hc: &http.Client{Transport: rt, Timeout: 30 * time.Second}}
-						ctx, cancel := context.WithTimeout(context.Background(), hostileDeadline)
-						defer cancel()
-						start := time.Now()
-						msg, stack = capture(func() {
-							val, err = hp.call(ctx, e)
-							if err == nil && val != nil {
-								rv := reflect.ValueOf(val)
-								if !(rv.Kind() == reflect.Pointer && rv.IsNil()) && strings.Contains(rv.Type().String(), "oidc.") {
-									exercise(val)
-								}
+						status, bodyKind := sp.Get(v, "status"), sp.Get(v, "body")
+						_, dev := slotSkip(sp, v, first, d)
+						valid := h.honest[hp.target].body
+						if dev > 0 || (hp.wrap != nil && bodyKind == "valid") {
+							valid = renderDoc(sp, v, first, d, "object")
+							if hp.wrap != nil {
+								valid = hp.wrap(valid)
 							}
-						})
-						elapsed = time.Since(start)
-					})
-					if pan != "" {
-						return engine.Bad("harness", "panic", "C09/harness-panic/hostile", pan)
-					}
-					what := fmt.Sprintf("helper %s, provider answers %s with body %q", hp.name, status, clip(string(rt.body), 300))
-					if stack != "" {
-						return engine.Bad(rule, "panic", "C09/panic/"+site(stack), fmt.Sprintf("%s: panic %s; frames: %s", what, clip(msg, 160), repoFrames(stack, 5)))
-					}
-					if err != nil && strings.HasPrefix(err.Error(), "SETUP:") {
-						return engine.Bad("harness", "setup", "C09/harness-setup/"+hp.name, err.Error())
-					}
-					if elapsed > hostileDeadline+31*time.Second {
-						return engine.Bad(rule, "late", "C09/not-terminated-in-time/"+hp.name, fmt.Sprintf("%s: returned after %v of fake time, context deadline was %v", what, elapsed, hostileDeadline))
-					}
-					outcome := "ok"
-					isNil := val == nil
-					if !isNil {
-						rv := reflect.ValueOf(val)
-						isNil = (rv.Kind() == reflect.Pointer || rv.Kind() == reflect.Slice || rv.Kind() == reflect.Interface) && rv.IsNil()
-					}
-					switch {
-					case err != nil:
-						outcome = "error"
-					case isNil:
-						outcome = "nil-nil"
-					}
-					if baseline && err != nil {
-						return engine.Bad(rule, outcome, "C09/baseline-not-accepted/"+hp.name, fmt.Sprintf("%s: honest provider, helper failed: %v", what, err))
-					}
-					return engine.OK(rule, outcome)
-				}
-				if os.Getenv("C09_CHILD") != "" {
-					return inproc
-				}
-				// Helpers whose work continues in a goroutine started by the library
-				// (remote JWKS download): a panic there cannot be recovered, so these
-				// executions run in a child process and a crash is read from its stderr.
-				var ch *childProc
-				return func(v engine.Vec) engine.Result {
-					hp := byName[sp.Get(v, "helper")]
-					if hp.target != "jwks" {
-						return inproc(v)
-					}
-					if ch == nil {
-						ch = startChild()
-					}
-					res, crash, err := ch.do(pt.part, sp.Describe(v))
-					if err != nil && crash == "" {
-						ch.kill()
-						ch = nil
-						return engine.Bad("harness", "child", "C09/harness-child/hostile", err.Error())
-					}
-					if crash != "" {
-						ch.kill()
-						ch = nil
-						_, dev := slotSkip(sp, v, first, refDocs[hp.name])
+						}
+						rt := &hostileRT{prep: h, target: hp.target, body: hostileBody(bodyKind, valid)}
+						fmt.Sscanf(status, "%d", &rt.status)
+						rt.loop = status == "302-loop"
+						baseline := status == "200" && bodyKind == "valid" && dev == 0
 						rule := "dev/" + hp.name
-						if sp.Get(v, "status") == "200" && sp.Get(v, "body") == "valid" && dev == 0 {
+						if baseline {
 							rule = "baseline-must-succeed/" + hp.name
 						}
-						first := crash
-						if i := strings.Index(first, "\n"); i > 0 {
-							first = first[:i]
+						var (
+							val        any
+							err        error
+							msg, stack string
+							elapsed    time.Duration
+						)
+						pan := engine.Bubble(t, 0, func() {
+							e := &henv{prep: h, hc: &http.Client{Transport: rt, Timeout: 30 * time.Second}}
+							ctx, cancel := context.WithTimeout(context.Background(), hostileDeadline)
+							defer cancel()
+							start := time.Now()
+							msg, stack = capture(func() {
+								val, err = hp.call(ctx, e)
+								if err == nil && val != nil {
+									rv := reflect.ValueOf(val)
+									if !(rv.Kind() == reflect.Pointer && rv.IsNil()) && strings.Contains(rv.Type().String(), "oidc.") {
+										exercise(val)
+									}
+								}
+							})
+							elapsed = time.Since(start)
+						})
+						if pan != "" {
+							return engine.Bad("harness", "panic", "C09/harness-panic/hostile", pan)
 						}
-						return engine.Bad(rule, "crash", "C09/panic/"+site(crash), fmt.Sprintf("helper %s, provider answers %s / %s: unrecoverable %s in a goroutine started by the library; frames: %s",
-							hp.name, sp.Get(v, "status"), sp.Get(v, "body"), clip(first, 160), repoFrames(crash, 5)))
+						what := fmt.Sprintf("helper %s, provider answers %s with body %q", hp.name, status, clip(string(rt.body), 300))
+						if stack != "" {
+							return engine.Bad(rule, "panic", "C09/panic/"+site(stack), fmt.Sprintf("%s: panic %s; frames: %s", what, clip(msg, 160), repoFrames(stack, 5)))
+						}
+						if err != nil && strings.HasPrefix(err.Error(), "SETUP:") {
+							return engine.Bad("harness", "setup", "C09/harness-setup/"+hp.name, err.Error())
+						}
+						if elapsed > hostileDeadline+31*time.Second {
+							return engine.Bad(rule, "late", "C09/not-terminated-in-time/"+hp.name, fmt.Sprintf("%s: returned after %v of fake time, context deadline was %v", what, elapsed, hostileDeadline))
+						}
+						outcome := "ok"
+						isNil := val == nil
+						if !isNil {
+							rv := reflect.ValueOf(val)
+							isNil = (rv.Kind() == reflect.Pointer || rv.Kind() == reflect.Slice || rv.Kind() == reflect.Interface) && rv.IsNil()
+						}
+						switch {
+						case err != nil:
+							outcome = "error"
+						case isNil:
+							outcome = "nil-nil"
+						}
+						if baseline && err != nil {
+							return engine.Bad(rule, outcome, "C09/baseline-not-accepted/"+hp.name, fmt.Sprintf("%s: honest provider, helper failed: %v", what, err))
+						}
+						return engine.OK(rule, outcome)
 					}
-					return res
+					return inproc
 				}
+				return isolated(pt.part, w, sp, mk, func(v engine.Vec) (string, string) {
+					hp := byName[sp.Get(v, "helper")]
+					_, dev := slotSkip(sp, v, first, refDocs[hp.name])
+					rule := "dev/" + hp.name
+					if sp.Get(v, "status") == "200" && sp.Get(v, "body") == "valid" && dev == 0 {
+						rule = "baseline-must-succeed/" + hp.name
+					}
+					return rule, fmt.Sprintf("helper %s, provider answers %s / %s", hp.name, sp.Get(v, "status"), sp.Get(v, "body"))
+				})
 			},
 		}, names
-	}
-}
-
-// ---------------------------------------------------------------------------
-// child process for crash isolation
-
-type childProc struct {
-	cmd    *exec.Cmd
-	in     io.WriteCloser
-	out    *bufio.Reader
-	stderr *bytes.Buffer
-}
-
-type childReq struct {
-	Part string            `json:"part"`
-	Case map[string]string `json:"case"`
-}
-
-func startChild() *childProc {
-	cmd := exec.Command(os.Args[0], "-test.run", "^TestHostileChild$", "-test.timeout", "0", "-test.count", "1")
-	cmd.Env = append(os.Environ(), "C09_CHILD=1", "GOTRACEBACK=single")
-	childEnvMu.Lock()
-	for k, v := range childEnv {
-		cmd.Env = append(cmd.Env, k+"="+v)
-	}
-	childEnvMu.Unlock()
-	in, err := cmd.StdinPipe()
-	if err != nil {
-		panic(err)
-	}
-	out, err := cmd.StdoutPipe()
-	if err != nil {
-		panic(err)
-	}
-	c := &childProc{cmd: cmd, in: in, out: bufio.NewReaderSize(out, 1<<16), stderr: &bytes.Buffer{}}
-	cmd.Stderr = c.stderr
-	if err := cmd.Start(); err != nil {
-		panic(err)
-	}
-	return c
-}
-
-func (c *childProc) kill() {
-	c.in.Close()
-	c.cmd.Process.Kill()
-	c.cmd.Wait()
-}
-
-const childPrefix = "C09RES "
-
-// what a parent hands down to its children besides the environment
-var (
-	childEnvMu sync.Mutex
-	childEnv   = map[string]string{}
-)
-
-const childCaseTimeout = 5 * time.Minute
-
-// do sends one case; crash is the child's stderr when it died.
-func (c *childProc) do(part string, desc map[string]string) (res engine.Result, crash string, err error) {
-	b, _ := json.Marshal(childReq{part, desc})
-	// guard of the harness, not an oracle: a child that neither answers nor dies is killed
-	// (its executions take milliseconds of CPU; all waiting inside them is fake time)
-	guard := time.AfterFunc(childCaseTimeout, func() { c.cmd.Process.Kill() })
-	defer guard.Stop()
-	if _, err = c.in.Write(append(b, '\n')); err == nil {
-		for {
-			var line string
-			line, err = c.out.ReadString('\n')
-			if err != nil {
-				break
-			}
-			if strings.HasPrefix(line, childPrefix) {
-				err = json.Unmarshal([]byte(line[len(childPrefix):]), &res)
-				return res, "", err
-			}
-		}
-	}
-	// the child is gone: collect what it said
-	c.in.Close()
-	c.cmd.Wait()
-	out := c.stderr.String()
-	if i := strings.Index(out, "panic: "); i >= 0 {
-		return res, out[i:], err
-	}
-	if i := strings.Index(out, "fatal error: "); i >= 0 {
-		return res, out[i:], err
-	}
-	return res, "", fmt.Errorf("child ended without a panic report: %v; stderr: %s", err, clip(out, 400))
-}
-
-// TestHostileChild is the body of the child process (never selected by vcheck).
-func TestHostileChild(t *testing.T) {
-	if os.Getenv("C09_CHILD") == "" {
-		t.Skip("only as child of TestCheck")
-	}
-	workers := map[string]func(engine.Vec) engine.Result{}
-	spaces := map[string]engine.Space{}
-	sc := bufio.NewScanner(os.Stdin)
-	sc.Buffer(make([]byte, 1<<20), 1<<20)
-	w := bufio.NewWriter(os.Stdout)
-	for sc.Scan() {
-		var rq childReq
-		if err := json.Unmarshal(sc.Bytes(), &rq); err != nil {
-			t.Fatal(err)
-		}
-		if workers[rq.Part] == nil {
-			var e1 engine.E1
-			if rq.Part == timingPart {
-				e1, _ = buildTiming(t, false) // the space is the same in both tiers
-			} else {
-				pt := passT{rq.Part, shapeNames(len(shapesAll)), 1, false}
-				if strings.HasSuffix(rq.Part, "-pairs") {
-					pt = passT{rq.Part, shapeNames(19), 2, true}
-				}
-				e1, _ = buildHostile(t, pt)
-			}
-			workers[rq.Part], spaces[rq.Part] = e1.NewWorker(0), e1.Space
-		}
-		v, err := spaces[rq.Part].FromDescription(rq.Case)
-		if err != nil {
-			t.Fatal(err)
-		}
-		res := workers[rq.Part](v)
-		b, _ := json.Marshal(res)
-		w.WriteString(childPrefix)
-		w.Write(b)
-		w.WriteByte('\n')
-		w.Flush()
 	}
 }
